@@ -311,3 +311,5 @@ func defaultPal() [64]color.RGBA {
 func rgbaOf(c []int) color.RGBA {
 	return color.RGBA{uint8(c[1]), uint8(c[2]), uint8(c[3]), uint8(c[4])}
 }
+
+type colorRGBA = color.RGBA
